@@ -10,3 +10,4 @@ for p in $props; do
   grep -E "^VIOLATION|^  detail|^  note" sweep_out/${p}_${tier}_${seed}.txt | cut -c1-500 | head -8
   [ $rc -eq 1 ] && cp -r replays sweep_out/replays_$p 2>/dev/null
 done
+exit 0
